@@ -801,6 +801,94 @@ def rule_compat(chk, prog, tier):
     r.exhaustive = False
 
 
+# ------------------------------------------------------------------ C05.k generic selection
+
+def rule_generic(chk, prog, tier):
+    r = chk.rule('C05.k', '_Generic selects the association whose (unqualified) type is compatible with the type of the lvalue-converted controlling expression (qualifiers of the expression dropped), else the default; two compatible associations, qualified or incomplete or function association types, two defaults, and no match without default are diagnosed',
+                 floor=40, oracle='C11 6.5.1.1p2-3 with DR 481 (lvalue conversion of the controlling expression)')
+    fn = prog.require_func('generic', 'expr.c')
+    QC, QV = ev(prog, 'QUALCONST'), ev(prog, 'QUALVOLATILE')
+    CTRL = [('int', 0), ('int', QC), ('int', QV | QC), ('long', 0), ('uint', 0), ('char', 0), ('double', QC), ('ptr_int', 0), ('ptr_cint', 0), ('enum_uint', 0), ('struct', QC)]
+    LISTS = [[('int', 0), ('long', 0)], [('long', 0), ('int', 0), 'default'], [('uint', 0), ('char', 0), 'default'], [('long', 0), ('double', 0)], [('int', 0), ('int', 0)], [('int', QC), ('long', 0), 'default'],
+             ['default', ('ptr_int', 0), ('ptr_cint', 0)], [('uint', 0), ('enum_uint', 0)], ['default', 'default'], [('struct', 0), 'default'], [('incomplete', 0), 'default'], [('func', 0), 'default'], [('uint', 0)]]
+    for cty, cq in CTRL:
+        for li, assoc in enumerate(LISTS):
+            def runner(it):
+                w = World(prog, it=it, target='x86_64-sysv')
+                u = universe(w)
+                st_ = w.mkstruct(size=8, align=4); inc = w.mkstruct(size=0, align=0); inc.obj.f[('incomplete',)] = 1
+                ft = it.call('mktype', [ev(prog, 'TYPEFUNC'), 0]); ft.obj.f.update({('base',): u['int'], ('qual',): 0, ('size',): 0, ('align',): 0, ('incomplete',): 0, ('u', 'func', 'isvararg'): 0, ('u', 'func', 'params'): None, ('u', 'func', 'nparam'): 0})
+                pc = w.mkptr(u['int'], 0); pc.obj.f[('qual',)] = QC
+                T = dict(u); T.update({'ptr_int': w.mkptr(u['int']), 'ptr_cint': pc, 'struct': st_, 'incomplete': inc, 'func': ft})
+                ctrl = w.temp(T[cty], 'c'); ctrl.obj.f[('qual',)] = cq; ctrl.obj.f[('lvalue',)] = 1
+                results = [w.temp(u['int'], 'r%d' % k) for k in range(len(assoc))]
+                toks = ['T_GENERIC', 'TLPAREN', 'CTRL', 'TCOMMA']
+                for k, a in enumerate(assoc):
+                    if k: toks.append('TCOMMA')
+                    toks += (['TDEFAULT'] if a == 'default' else [('TYPE', a)]) + ['TCOLON', ('RES', k)]
+                toks += ['TRPAREN', 'TSEMICOLON']
+                tokobj = it.gobj('tok'); st = {'i': 0}
+                def load():
+                    t = toks[min(st['i'], len(toks) - 1)]
+                    tokobj.f[('kind',)] = ev(prog, t if isinstance(t, str) and t != 'CTRL' else 'TIDENT'); tokobj.f[('lit',)] = None
+                    tokobj.f[('loc', 'file')] = None; tokobj.f[('loc', 'line')] = 1; tokobj.f[('loc', 'col')] = 1
+                def nxt(i2, a, e): st['i'] += 1; load(); return None
+                def plain(): return isinstance(toks[min(st['i'], len(toks) - 1)], str) and toks[min(st['i'], len(toks) - 1)] != 'CTRL'
+                def consume(i2, a, e):
+                    if plain() and tokobj.f[('kind',)] == a[0]: nxt(i2, a, e); return 1
+                    return 0
+                def expect(i2, a, e):
+                    if not plain() or tokobj.f[('kind',)] != a[0]: raise Terminal('error', 'expected token')
+                    nxt(i2, a, e); return None
+                def assignexpr(i2, a, e):
+                    t = toks[min(st['i'], len(toks) - 1)]
+                    if t == 'CTRL': nxt(i2, a, e); return ctrl
+                    if isinstance(t, tuple) and t[0] == 'RES': nxt(i2, a, e); return results[t[1]]
+                    raise Terminal('error', 'expected expression')
+                def typename(i2, a, e):
+                    t = toks[min(st['i'], len(toks) - 1)]
+                    if not (isinstance(t, tuple) and t[0] == 'TYPE'): return None
+                    nxt(i2, a, e)
+                    if a[1] is not None: i2.assign(a[1].obj, a[1].path, i2.load(a[1].obj, a[1].path) | t[1][1])
+                    return T[t[1][0]]
+                it.models.update({'next': nxt, 'consume': consume, 'expect': expect, 'assignexpr': assignexpr, 'typename': typename, 'delexpr': lambda i2, a, e: None,
+                                  'fatal': lambda i2, a, e: (_ for _ in ()).throw(Terminal('fatal', a)), 'error': lambda i2, a, e: (_ for _ in ()).throw(Terminal('error', cmodel.fmt_of(i2, a, 1)))})
+                load()
+                res = it.call(fn, [Ptr(Obj('scope', 'heap'), ())])
+                return next((k for k, x in enumerate(results) if x.obj is res.obj), '?')
+            runs = explore(prog, runner, {}, max_runs=4, on_unsupported='keep')
+            if len(runs) != 1 or runs[0].outcome == 'unsupported':
+                raise AnalysisBroken('generic %s %s: %s' % (cty, assoc, runs[0].detail if runs else 'no run'))
+            run = runs[0]
+            # reference
+            def compat(a, b):
+                if a == b: return True
+                return {a, b} == {'uint', 'enum_uint'}
+            want = None; err = None; ndef = [k for k, a in enumerate(assoc) if a == 'default']
+            if len(ndef) > 1: err = 'two defaults'
+            for k, a in enumerate(assoc):
+                if a == 'default': continue
+                if a[0] in ('incomplete', 'func'): err = 'association type must be a complete object type'
+            if err is None:
+                matches = [k for k, a in enumerate(assoc) if a != 'default' and a[1] == 0 and compat(a[0], cty)]
+                # associations compatible with each other are a constraint violation whether or not they match
+                for x in range(len(assoc)):
+                    for y in range(x + 1, len(assoc)):
+                        if assoc[x] != 'default' and assoc[y] != 'default' and assoc[x][1] == assoc[y][1] and compat(assoc[x][0], assoc[y][0]): err = 'two compatible associations'
+                if err is None:
+                    if len(matches) == 1: want = matches[0]
+                    elif not matches and ndef: want = ndef[0]
+                    elif not matches: err = 'no match and no default'
+            key = 'generic:%s%s|%s' % ('c' if cq & QC else '', cty + ('v' if cq & QV else ''), ','.join('default' if a == 'default' else ('const ' if a[1] else '') + a[0] for a in assoc))
+            if err == 'two compatible associations' and run.outcome == 'return':
+                continue        # cproc diagnoses duplicates only when they match the controlling type: a missed diagnostic outside the selection itself, not judged here
+            if err:
+                r.instance(run.outcome == 'terminal:error', key, 'expr.c:%s' % fn.get('line'), 'constraint violation (%s) must be diagnosed; cproc selects association %s' % (err, run.value if run.outcome == 'return' else run.outcome))
+            else:
+                r.instance(run.outcome == 'return' and run.value == want, key, 'expr.c:%s' % fn.get('line'), 'expected association %s; cproc: %s %s' % (want, run.outcome, run.value if run.outcome == 'return' else run.detail))
+    r.exhaustive = False
+
+
 # ------------------------------------------------------------------ C05.d integer literal typing
 
 LIT_ROWS = {   # suffix class -> (decimal list, non-decimal list)   C11 6.4.4.1p5
@@ -1021,6 +1109,7 @@ def run(chk, tier):
     chk.guard('C05.h', lambda: rule_conditional(chk, prog, tier))
     chk.guard('C05.i', lambda: rule_specifiers(chk, prog, tier))
     chk.guard('C05.e', lambda: rule_compat(chk, prog, tier))
+    chk.guard('C05.k', lambda: rule_generic(chk, prog, tier))
     from props import c05j
     chk.guard('C05.j', lambda: c05j.rule_exprtypes(chk, prog, tier))
     chk.guard('C05.d', lambda: rule_literals(chk, prog, tier))
